@@ -342,12 +342,36 @@ theorem newOf_some {op : Op} {l : Option Located} {nw : New} (h : newOf op l = s
     simp only at h
     by_cases hv : validName loc.name = true
     · simp only [hv, Bool.not_true, Bool.false_eq_true, if_false] at h
-      cases hm : metadata loc.name loc.exe with
-      | none => rw [hm] at h; cases h
-      | some v =>
-        rw [hm] at h
-        cases h
-        exact ⟨loc, rfl, hv, hm, rfl, rfl⟩
+      by_cases hio : insideOwn op loc.name = true
+      · simp [hio] at h
+      · simp only [hio, Bool.false_eq_true, if_false] at h
+        cases hm : metadata loc.name loc.exe with
+        | none => rw [hm] at h; cases h
+        | some v =>
+          rw [hm] at h
+          cases h
+          exact ⟨loc, rfl, hv, hm, rfl, rfl⟩
+    · simp [hv] at h
+
+/-- a source inside the plugin's own directory never yields a plugin to install -/
+theorem newOf_not_inside {op : Op} {l : Option Located} {nw : New} (h : newOf op l = some nw) :
+    insideOwn op nw.name = false := by
+  unfold newOf at h
+  cases l with
+  | none => cases h
+  | some loc =>
+    simp only at h
+    by_cases hv : validName loc.name = true
+    · simp only [hv, Bool.not_true, Bool.false_eq_true, if_false] at h
+      by_cases hio : insideOwn op loc.name = true
+      · simp [hio] at h
+      · simp only [hio, Bool.false_eq_true, if_false] at h
+        cases hm : metadata loc.name loc.exe with
+        | none => rw [hm] at h; cases h
+        | some v =>
+          rw [hm] at h
+          cases h
+          simpa using hio
     · simp [hv] at h
 
 theorem answer_new {op : Op} {nw : New} (h : specNew op = some nw) :
@@ -372,8 +396,8 @@ def mkStep (e : Err) (ex nw : Option Text) (R : List PluginObs) : StepObs :=
 def rmexeObs (n : Text) (p : PluginObs) : PluginObs :=
   if p.name == n then ⟨p.name, delBy FileObs.name (binName n) p.files, none⟩ else p
 
-/-- one operation, computed from the observed root only -/
-def specStep (R : List PluginObs) (op : Op) : StepObs :=
+/-- one operation, computed from the observed root as it is after the source chmod -/
+def specStep1 (R : List PluginObs) (op : Op) : StepObs :=
   match op.kind with
   | .install =>
     match specNew op with
@@ -382,8 +406,7 @@ def specStep (R : List PluginObs) (op : Op) : StepObs :=
       match ruleR (existingR R nw.name) op.overwrite nw with
       | .error e => mkStep e none none R
       | .ok ex =>
-        if insideOwn op nw then mkStep .other none none R
-        else mkStep .ok ex (some nw.version) (putBy PluginObs.name (newObs nw) (delBy PluginObs.name nw.name R))
+        mkStep .ok ex (some nw.version) (putBy PluginObs.name (newObs nw) (delBy PluginObs.name nw.name R))
   | .uninstall =>
     if !validName op.name then mkStep .other none none R
     else if (lookupR R op.name).isSome then mkStep .ok none none (delBy PluginObs.name op.name R)
@@ -393,6 +416,9 @@ def specStep (R : List PluginObs) (op : Op) : StepObs :=
     else mkStep .ok none none
       (putBy PluginObs.name (pobs ⟨op.name, topFiles op.entries⟩) (delBy PluginObs.name op.name R))
   | .rmexe => mkStep .ok none none (R.map (rmexeObs op.name))
+
+/-- one operation, computed from the observed root only -/
+def specStep (R : List PluginObs) (op : Op) : StepObs := specStep1 (touchR R op) op
 
 def specRun : List PluginObs → List Op → List StepObs
   | _, [] => []
@@ -462,31 +488,144 @@ theorem pobs_rmexe (n : Text) (p : Plugin) :
     · rw [findBy_delBy_self]; rfl
   · simp only [h, pobs_name]; rfl
 
+theorem binName_inj {a b : Text} (h : binName a = binName b) : a = b :=
+  List.append_cancel_left h
+
+theorem specLocate_exe_name {op : Op} {loc : Located} (h : specLocate op = some loc) :
+    loc.exe.name = binName loc.name := by
+  unfold specLocate at h
+  by_cases hd : op.srcIsDir = true
+  · simp only [hd, if_true] at h
+    have hl : op.viaLink = false := by
+      cases hv : op.viaLink
+      · rfl
+      · simp [hv] at h
+    simp only [hl, Bool.false_eq_true, if_false] at h
+    obtain ⟨f, c, _, hm⟩ := specLocateDir_some h
+    obtain ⟨hexe, hname, _⟩ := mkLocated_some hm
+    rw [hexe]; exact parseName_some hname
+  · simp only [hd] at h
+    obtain ⟨e, _, _, _, hm⟩ := locateFile_some h
+    obtain ⟨hexe, hname, _⟩ := mkLocated_some hm
+    rw [hexe]; exact parseName_some hname
+
+/-- setting the executable bit of a file that is not the directory's own plugin executable
+does not change what the plugin answers -/
+theorem answer_chmod (p : Plugin) (fn : Text) (h : fn ≠ binName p.name) :
+    answer { p with files := p.files.map fun f => if f.name == fn then { f with exec := true } else f } =
+      answer p := by
+  unfold answer
+  simp only
+  split
+  · rfl
+  · rw [findBy_map File.name File.name _ (by intro a; split <;> rfl)]
+    cases hf : findBy File.name (binName p.name) p.files with
+    | none => rfl
+    | some g =>
+      have hg := (findBy_some File.name hf).2
+      have hne : g.name ≠ fn := by rw [hg]; exact fun e => h e.symm
+      simp [hne]
+
+theorem observe_chmodIn (X fn : Text) (st : State) (h : fn ≠ binName X) :
+    observe (chmodIn X fn st) = chmodInR X fn (observe st) := by
+  unfold observe chmodIn chmodInR
+  simp only [List.map_map]
+  apply List.map_congr_left
+  intro p _
+  simp only [Function.comp, pobs_name]
+  by_cases hp : (p.name == X) = true
+  · have hX : p.name = X := by simpa using hp
+    simp only [hp, if_true]
+    have ha := answer_chmod p fn (by rw [hX]; exact h)
+    simp only [pobs, ha, List.map_map]
+    congr 1
+    apply List.map_congr_left
+    intro f _
+    simp only [Function.comp, fobs]
+    by_cases hf : (f.name == fn) = true <;> simp [hf]
+  · simp only [hp]; rfl
+
+theorem srcChmod_ne {op : Op} {loc : Located} {X fn : Text} (hl : specLocate op = some loc)
+    (h : srcChmod op (some loc) = some (X, fn)) : fn ≠ binName X := by
+  unfold srcChmod at h
+  simp only at h
+  split at h
+  · rename_i hc
+    cases h
+    simp only [Bool.and_eq_true, Bool.not_eq_true', insideOwn, Bool.and_eq_false_iff] at hc
+    obtain ⟨⟨⟨⟨_, _⟩, hio⟩, _⟩, hne⟩ := hc
+    rw [specLocate_exe_name hl]
+    intro e
+    have := binName_inj e
+    rcases hio with hio | hio
+    · simp [hne] at hio
+    · simp [this] at hio
+  · cases h
+
+theorem observe_touchSt (st : State) (op : Op) : observe (touchSt st op) = touchR (observe st) op := by
+  unfold touchSt touchR
+  rw [locate_eq_spec]
+  cases hl : specLocate op with
+  | none => simp [srcChmod]
+  | some loc =>
+    cases hc : srcChmod op (some loc) with
+    | none => rfl
+    | some xf =>
+      obtain ⟨X, fn⟩ := xf
+      exact observe_chmodIn X fn st (srcChmod_ne hl hc)
+
+theorem touchR_noninstall (R : List PluginObs) (op : Op) (h : op.kind ≠ .install) : touchR R op = R := by
+  unfold touchR srcChmod
+  cases specLocate op with
+  | none => rfl
+  | some l =>
+    have : (op.kind == OpKind.install) = false := beq_eq_false_iff_ne.2 h
+    simp [this]
+
+theorem touchSt_noninstall (st : State) (op : Op) (h : op.kind ≠ .install) : touchSt st op = st := by
+  unfold touchSt srcChmod
+  cases locate op with
+  | none => rfl
+  | some l =>
+    have : (op.kind == OpKind.install) = false := beq_eq_false_iff_ne.2 h
+    simp [this]
+
+/-- Install on the touched root = the observable-level step on the touched observed root -/
+theorem install1_eq_spec (st : State) (op : Op) (hk : op.kind = .install) :
+    (let r := install1 st op
+     (⟨r.1.err, r.1.existing, r.1.new, observe r.2, (observe r.2).map (·.name)⟩ : StepObs)) =
+      specStep1 (observe st) op ∧
+      observe (install1 st op).2 = (specStep1 (observe st) op).root := by
+  unfold specStep1
+  simp only [hk, install1, locate_eq_spec]
+  show _ ∧ _
+  cases hn : specNew op with
+  | none =>
+    have : newOf op (specLocate op) = none := hn
+    simp [this, mkStep]
+  | some nw =>
+    have hn' : newOf op (specLocate op) = some nw := hn
+    simp only [hn']
+    rw [versionRule_eq st op.overwrite (newOf_valid hn')]
+    cases hr : ruleR (existingR (observe st) nw.name) op.overwrite nw with
+    | error e => simp [mkStep]
+    | ok ex => simp [mkStep, observe_replace hn]
+
 /-- one step of the model = the observable-level step -/
 theorem step_eq_spec (st : State) (op : Op) :
     stepObs st op = specStep (observe st) op ∧
       observe (step st op).2 = (specStep (observe st) op).root := by
-  unfold stepObs step specStep
+  unfold specStep
   cases hk : op.kind with
   | install =>
-    simp only [install, locate_eq_spec]
-    show _ ∧ _
-    cases hn : specNew op with
-    | none =>
-      have : newOf op (specLocate op) = none := hn
-      simp [this, mkStep]
-    | some nw =>
-      have hn' : newOf op (specLocate op) = some nw := hn
-      simp only [hn']
-      rw [versionRule_eq st op.overwrite (newOf_valid hn')]
-      cases hr : ruleR (existingR (observe st) nw.name) op.overwrite nw with
-      | error e => simp [mkStep]
-      | ok ex =>
-        by_cases hio : insideOwn op nw = true
-        · simp [mkStep, hio]
-        · simp [mkStep, observe_replace hn, hio]
+    have h := install1_eq_spec (touchSt st op) op hk
+    rw [observe_touchSt] at h
+    simp only [stepObs, step, hk, install]
+    exact h
   | uninstall =>
-    simp only [uninstall]
+    rw [touchR_noninstall _ _ (by rw [hk]; exact fun e => by cases e)]
+    unfold stepObs step specStep1
+    simp only [hk, uninstall]
     by_cases hv : validName op.name = true
     · simp only [hv, Bool.not_true, Bool.false_eq_true, if_false]
       rw [lookupR_observe]
@@ -496,13 +635,17 @@ theorem step_eq_spec (st : State) (op : Op) :
         simp [mkStep, observe, map_delBy Plugin.name PluginObs.name pobs pobs_name]
     · simp [hv, mkStep]
   | plant =>
-    simp only [plant]
+    rw [touchR_noninstall _ _ (by rw [hk]; exact fun e => by cases e)]
+    unfold stepObs step specStep1
+    simp only [hk, plant]
     by_cases hv : validName op.name = true
     · simp [hv, mkStep, observe, map_putBy Plugin.name PluginObs.name pobs pobs_name,
         map_delBy Plugin.name PluginObs.name pobs pobs_name]
     · simp [hv, mkStep]
   | rmexe =>
-    simp only [rmexe]
+    rw [touchR_noninstall _ _ (by rw [hk]; exact fun e => by cases e)]
+    unfold stepObs step specStep1
+    simp only [hk, rmexe]
     have : observe (List.map (fun p => if (p.name == op.name) = true then
         { p with files := delBy File.name (binName op.name) p.files } else p) st) =
         (observe st).map (rmexeObs op.name) := by
